@@ -1,6 +1,7 @@
 import SignaloModel.Proofs.BridgeHull
 import SignaloModel.Proofs.BridgeSimple
 import SignaloModel.Proofs.SmoothProofs
+import SignaloModel.Proofs.OneStep
 /-!
 # C13 — Exponential smoothers obey their recurrences and stay in the data hull
 
@@ -9,6 +10,8 @@ The property theorems for C13: `#check` prints each statement, `#print axioms` i
 -/
 open SignaloModel
 
+#check @Registry.ema_first
+#check @Registry.ema_step
 #check @Registry.emaRec_snoc
 #check @Registry.ema_state
 #check @Registry.ema_registry_correct
@@ -22,6 +25,8 @@ open SignaloModel
 #check @Smooth.ema_const
 #check @Smooth.emaStep_in
 
+#print axioms Registry.ema_first
+#print axioms Registry.ema_step
 #print axioms Registry.emaRec_snoc
 #print axioms Registry.ema_state
 #print axioms Registry.ema_registry_correct
